@@ -1214,6 +1214,68 @@ def fmt16(ctx: Ctx) -> None:
         ctx.R.ok("FMT-16", "no formatting method mutates state reachable from the options")
 
 
-C18 = [fmt1, fmt2, fmt3, fmt5, fmt7, fmt10_11, fmt14, fmt15, fmt16]
+def fmt17(ctx: Ctx) -> None:
+    """FMT-17 objects of the observed program that are rendered into a line (Stack.root, Stack.leaf, Context.obj: the fields
+    declared `object`) go through repr(), never str(): str() of an arbitrary object may span several lines (one list element
+    then holds several physical lines, and only the first gets the tree prefix) and a string loses its quotes.  Checked for
+    every f-string field, str() call and .format() argument in the formatting module, following local names bound to such a
+    field (also through `x if ... else "text"`)"""
+    mod = ctx.P.mod("_types")
+    fields: Set[str] = set()
+    for cls in mod.tree.body:
+        if isinstance(cls, ast.ClassDef):
+            for a in cls.body:
+                if isinstance(a, ast.AnnAssign) and isinstance(a.target, ast.Name) and norm(a.annotation).strip("'\"") in ("object", "Optional[object]", "Any", "Optional[Any]"):
+                    fields.add(a.target.id)
+    if not {"root", "leaf"} <= fields:
+        raise AnalysisError(f"FMT-17: the object-typed fields of Stack are {sorted(fields)} (root and leaf expected)")
+    n_repr = 0
+    for q, fn in mod.defs.items():
+        if not isinstance(fn, (ast.FunctionDef, ast.AsyncFunctionDef)):
+            continue
+        tracked: Set[str] = set()
+
+        def foreign(e: ast.AST) -> bool:
+            if isinstance(e, ast.Attribute):
+                return e.attr in fields
+            if isinstance(e, ast.Name):
+                return e.id in tracked
+            if isinstance(e, ast.IfExp):
+                return foreign(e.body) or foreign(e.orelse)
+            if isinstance(e, ast.BoolOp):
+                return any(foreign(v) for v in e.values)
+            return False
+
+        for _ in range(2):
+            for a in walk_scope(fn):
+                if isinstance(a, ast.Assign) and len(a.targets) == 1 and isinstance(a.targets[0], ast.Name) and foreign(a.value):
+                    tracked.add(a.targets[0].id)
+        for n in walk_scope(fn):
+            bad = None
+            if isinstance(n, ast.FormattedValue) and foreign(n.value):
+                if n.conversion == 114:
+                    n_repr += 1
+                else:
+                    bad = n
+            elif isinstance(n, ast.Call) and norm(n.func) in ("str", "format") and n.args and foreign(n.args[0]):
+                bad = n
+            elif isinstance(n, ast.Call) and norm(n.func) == "repr" and n.args and foreign(n.args[0]):
+                n_repr += 1
+            elif isinstance(n, ast.Call) and isinstance(n.func, ast.Attribute) and n.func.attr == "format" and isinstance(n.func.value, ast.Constant) and isinstance(n.func.value.value, str) \
+                    and any(foreign(a_) for a_ in n.args) and "!r" not in n.func.value.value:
+                bad = n
+            elif isinstance(n, ast.BinOp) and isinstance(n.op, ast.Mod) and isinstance(n.left, ast.Constant) and isinstance(n.left.value, str) and "%s" in n.left.value \
+                    and any(foreign(x) for x in ([n.right] + (list(n.right.elts) if isinstance(n.right, ast.Tuple) else []))):
+                bad = n
+            if bad is not None:
+                what = norm(bad.value if isinstance(bad, ast.FormattedValue) else bad)
+                ctx.R.fail("FMT-17", mod, bad, f"{q}: `{what[:60]}` renders an object of the observed program with str() instead of repr(): a multi-line __str__ puts several physical lines into one "
+                           "element of the result (only the first gets the tree prefix) and a string root / leaf is printed without quotes", construct=f"{q}: str() rendering of {what[:40]}")
+    if n_repr < 4:
+        raise AnalysisError(f"FMT-17: {n_repr} repr() renderings of root / leaf / obj found (>= 4 confirmed by hand)")
+    ctx.R.ok("FMT-17", f"{n_repr} renderings of {sorted(fields)} in stackscope._types", "all through !r / repr()")
+
+
+C18 = [fmt1, fmt2, fmt3, fmt5, fmt7, fmt10_11, fmt14, fmt15, fmt16, fmt17]
 C19 = [fmt2, fmt4, fmt6, fmt8, fmt9, fmt12, fmt13]
 C20 = [cont7, mode_rules, mode4, ref1]
